@@ -1,0 +1,39 @@
+//go:build verif
+
+// Contracts for the verification machinery in /verif (comment-only; compiled only with -tags verif).
+package sema
+
+// ---- C40: literals denote their written values: the range checks of the checker.
+// An integer literal is rejected exactly when its value is outside the expected type's range. The bounds of the
+// (unknown) integer type are ghost attributes of the type value: hasmin/min, hasmax/max (Int has neither,
+// UInt only a minimum).
+//@ iface IntegerRangedType.MinInt
+//@   assumed
+//@   nofail
+//@   ensures (ghostof(self, "hasmin") == 0 ==> result == nil) && (ghostof(self, "hasmin") != 0 ==> result != nil && big(result) == ghostof(self, "min"))
+//@ iface IntegerRangedType.MaxInt
+//@   assumed
+//@   nofail
+//@   ensures (ghostof(self, "hasmax") == 0 ==> result == nil) && (ghostof(self, "hasmax") != 0 ==> result != nil && big(result) == ghostof(self, "max"))
+//@ func checkIntegerRange
+//@   requires value != nil
+//@   nofail
+//@   ensures[C40] iff(result, (min == nil || big(value) >= big(min)) && (max == nil || big(value) <= big(max)))
+//@ func CheckIntegerLiteral
+//@   option opaquecalls=noop
+//@   requires expression != nil && expression.Value != nil
+//@   requires targetType != nil && implements(targetType, IntegerRangedType)
+//@   nofail
+//@   env MemoryMeteringError
+//@   ensures[C40] iff(result, (ghostof(targetType, "hasmin") == 0 || big(expression.Value) >= ghostof(targetType, "min")) && (ghostof(targetType, "hasmax") == 0 || big(expression.Value) <= ghostof(targetType, "max")))
+
+// A fixed-point literal +-(integer . fractional digits) with `Scale` fractional digits denotes
+// +-(integer + fractional / 10^Scale). It is rejected exactly when it has more fractional digits than the type's
+// scale S or its value is outside the type's range [MIN, MAX] / 10^S (the ranges below are the property's: the raw
+// 64/128-bit two's-complement or unsigned range), or when it is negative and the type is unsigned.
+// One instance per fixed-point type (the code reads the bounds from the type value).
+//@ spec pow10n(k) = ite(k == 0, 1, ite(k == 1, 10, ite(k == 2, 100, ite(k == 3, 1000, ite(k == 4, 10000, ite(k == 5, 100000, ite(k == 6, 1000000, ite(k == 7, 10000000, ite(k == 8, 100000000, ite(k == 9, 1000000000, ite(k == 10, 10000000000, ite(k == 11, 100000000000, ite(k == 12, 1000000000000, ite(k == 13, 10000000000000, ite(k == 14, 100000000000000, ite(k == 15, 1000000000000000, ite(k == 16, 10000000000000000, ite(k == 17, 100000000000000000, ite(k == 18, 1000000000000000000, ite(k == 19, 10000000000000000000, ite(k == 20, 100000000000000000000, ite(k == 21, 1000000000000000000000, ite(k == 22, 10000000000000000000000, ite(k == 23, 100000000000000000000000, ite(k == 24, 1000000000000000000000000, 0)))))))))))))))))))))))))
+//@ schema fixlit(N=Fix64, S=8, MIN=-pow2(63), MAX=pow2(63)-1, UNSIGNED=false)
+//@ schema fixlit(N=UFix64, S=8, MIN=0, MAX=pow2(64)-1, UNSIGNED=true)
+//@ schema fixlit(N=Fix128, S=24, MIN=-pow2(127), MAX=pow2(127)-1, UNSIGNED=false)
+//@ schema fixlit(N=UFix128, S=24, MIN=0, MAX=pow2(128)-1, UNSIGNED=true)
